@@ -32,7 +32,13 @@ inductive IntCC
   | UnsignedLessThan | UnsignedGreaterThanOrEqual | UnsignedGreaterThan | UnsignedLessThanOrEqual
   deriving DecidableEq, Repr, Inhabited
 
-inductive FloatCC | Equal | NotEqual | LessThan | LessThanOrEqual | GreaterThan | GreaterThanOrEqual
+/-- All of Cranelift's floating-point condition codes (so that a changed code in
+    the source is a changed, still well-typed, Lean definition). -/
+inductive FloatCC
+  | Ordered | Unordered | Equal | NotEqual | OrderedNotEqual | UnorderedOrEqual
+  | LessThan | LessThanOrEqual | GreaterThan | GreaterThanOrEqual
+  | UnorderedOrLessThan | UnorderedOrLessThanOrEqual
+  | UnorderedOrGreaterThan | UnorderedOrGreaterThanOrEqual
   deriving DecidableEq, Repr, Inhabited
 
 namespace Clif
@@ -103,16 +109,34 @@ def fneg (a : CVal) : Res CVal :=
   | .F64 => .ok ⟨.F64, (F.neg64 (a.bv 64)).toNat⟩
   | _ => .panic
 
+/-- "unordered": at least one operand is NaN (a NaN is the only value not equal to itself). -/
+def unord32 (x y : BitVec 32) : Bool := !(F.eq32 x x) || !(F.eq32 y y)
+def unord64 (x y : BitVec 64) : Bool := !(F.eq64 x x) || !(F.eq64 y y)
+
 def fccHolds32 (cc : FloatCC) (x y : BitVec 32) : Bool :=
   match cc with
   | .Equal => F.eq32 x y | .NotEqual => !(F.eq32 x y)
   | .LessThan => F.lt32 x y | .LessThanOrEqual => F.le32 x y
   | .GreaterThan => F.lt32 y x | .GreaterThanOrEqual => F.le32 y x
+  | .Ordered => !(unord32 x y) | .Unordered => unord32 x y
+  | .OrderedNotEqual => !(unord32 x y) && !(F.eq32 x y)
+  | .UnorderedOrEqual => unord32 x y || F.eq32 x y
+  | .UnorderedOrLessThan => unord32 x y || F.lt32 x y
+  | .UnorderedOrLessThanOrEqual => unord32 x y || F.le32 x y
+  | .UnorderedOrGreaterThan => unord32 x y || F.lt32 y x
+  | .UnorderedOrGreaterThanOrEqual => unord32 x y || F.le32 y x
 def fccHolds64 (cc : FloatCC) (x y : BitVec 64) : Bool :=
   match cc with
   | .Equal => F.eq64 x y | .NotEqual => !(F.eq64 x y)
   | .LessThan => F.lt64 x y | .LessThanOrEqual => F.le64 x y
   | .GreaterThan => F.lt64 y x | .GreaterThanOrEqual => F.le64 y x
+  | .Ordered => !(unord64 x y) | .Unordered => unord64 x y
+  | .OrderedNotEqual => !(unord64 x y) && !(F.eq64 x y)
+  | .UnorderedOrEqual => unord64 x y || F.eq64 x y
+  | .UnorderedOrLessThan => unord64 x y || F.lt64 x y
+  | .UnorderedOrLessThanOrEqual => unord64 x y || F.le64 x y
+  | .UnorderedOrGreaterThan => unord64 x y || F.lt64 y x
+  | .UnorderedOrGreaterThanOrEqual => unord64 x y || F.le64 y x
 
 def fcmp (cc : FloatCC) (a b : CVal) : Res CVal :=
   match a.ty, b.ty with
